@@ -196,6 +196,57 @@ def check_referents(cs, where):
     return ok
 
 
+def _stack_methods(root):
+    try:
+        return [o for o in gc.get_referents(root) if isinstance(o, types.MethodType)]
+    except Exception:
+        return []
+
+
+def retention_check(do_extract, tracked, where, compare_equal=True):
+    """C06: after one warm-up extraction in this very state, further extractions must leave the reference
+    counts of the managers / the target / its frame / the bound methods on its value stack unchanged once
+    the results are dropped, two consecutive results must compare equal, and nothing defined by stackscope
+    may still refer to the managers."""
+    # Nothing in THIS frame may hold an extraction result: when the target is a running stack this frame is
+    # part of what is extracted, stackscope reads f_locals of every frame, and CPython <= 3.12 caches that
+    # snapshot dict on the frame - a local `r` here would be kept alive by the interpreter's own snapshot.
+    def once():
+        do_extract()
+
+    def pair():
+        r1 = do_extract()
+        r2 = do_extract()
+        if r1.error is not None or r2.error is not None:
+            return True
+        return (r1 == r2) if compare_equal is True else compare_equal(r1, r2)
+
+    try:
+        once()                # warm-up: the first look may make frames materialise their f_locals dict
+        if not pair():
+            add_obs("pure.consecutive_extractions_differ", where)
+        once()
+        gc.collect()
+        before = [sys.getrefcount(o) for o in tracked]
+        for _ in range(max(1, S.repeat)):
+            once()
+            once()
+        gc.collect()
+        after = [sys.getrefcount(o) for o in tracked]
+    except BaseException as ex:
+        add_obs("pure.raised", where, exc=repr(ex))
+        return
+    S.bump("pure.retention_checks")
+    if before != after:
+        add_obs("pure.refcount", where, before=before, after=after,
+                objs=[type(o).__name__ for o in tracked])
+    for m, _ex in S.sh:
+        for ref in gc.get_referrers(m):
+            mod = getattr(type(ref), "__module__", "") or ""
+            if mod.startswith("stackscope"):
+                add_obs("pure.retained_by_stackscope_object", where, referrer=type(ref).__name__, manager=m.k)
+
+
 def note_warnings(w, where, pfx):
     for x in w:
         S.bump(pfx + ".warnings")
@@ -238,6 +289,13 @@ def probe(k, where=None):
             return
         check_exact(st.frames[0].contexts, where, "run")
         del st
+    if "pure" in S.modes:
+        fr = S.fr[0]
+        tracked = [m for m, _e in S.sh] + [fr]
+        # the callers' own frames advance between two calls (different line), so only the frame under
+        # test - which has not moved - is compared
+        retention_check(lambda: extract_since(fr), tracked, where,
+                        compare_equal=lambda a, b: bool(a.frames) and bool(b.frames) and a.frames[0] == b.frames[0])
 
 
 class M:
@@ -641,6 +699,11 @@ def observe_suspended(obj, kind, where):
                 if not good:
                     add_obs("susp.exact", where, got=ctxs_summary(low), exp=shadow_summary(), via="lowlevel")
             del stk, low
+    if "pure" in S.modes:
+        root = obj if PY >= (3, 11) else frame
+        tracked = [m for m, _e in S.sh] + [obj, frame] + _stack_methods(root)
+        retention_check(lambda: extract(obj), tracked, where)
+        del tracked
     if "ref" in S.modes:
         S.bump("ref.checks")
         set_trickery_enabled(False)
@@ -717,9 +780,20 @@ def run_program(prog, modes, extract_at=None, repeat=1):
         else:
             S.bump("step_limit")
         S.cleanup = True
+        wrs = []
+        if "pure" in S.modes:
+            import weakref
+            wrs = [weakref.ref(obj)]
         d.cleanup()
         del obj, d
-    res = {"obs": list(S.obs), "stats": dict(S.stats), "trace": trace, "result": result}
+        del S.fr[:]   # the harness's own handle on the frame (whose f_back chain would keep the driver alive)
+        if wrs:
+            gc.collect()
+            if any(w() is not None for w in wrs):
+                add_obs("pure.target_not_collectable", ["end"])
+            S.bump("pure.collectable_checks")
+    res = {"obs": list(S.obs), "stats": dict(S.stats), "trace": trace, "result": result,
+           "events": [list(e) for e in S.events]}
     if S.obs:
         res["src"] = src
     if S.sh and result is not None and kind == "func":
@@ -736,6 +810,7 @@ def handle(req):
         for prog in req["progs"]:
             res = run_program(prog, req.get("modes", ["susp", "run", "meta"]), repeat=req.get("repeat", 1))
             res.pop("trace", None)
+            res.pop("events", None)
             out.append(res)
         return {"results": out}
     if op == "g1.render":
